@@ -135,7 +135,12 @@ def check_api_invariants(api, filtered=False):
             if isinstance(inner, (D.Nullable, D.Void)):
                 fail('nullable_of_' + type(inner).__name__.lower(), repr(dt))
     for ns in api.namespaces.values():
-        lin = ns.linearize_data_types()
+        try:
+            lin = ns.linearize_data_types()
+            la = ns.linearize_aliases()
+        except Exception as e:      # the orderings are part of the public description
+            fail('linearize_raised', '%s: %s' % (ns.name, type(e).__name__))
+            continue
         if sorted(map(id, lin)) != sorted(map(id, ns.data_types)):
             fail('linearize_data_types_not_permutation', ns.name)
         pos = {id(d): i for i, d in enumerate(lin)}
@@ -143,7 +148,6 @@ def check_api_invariants(api, filtered=False):
             p = d.parent_type
             if p is not None and p.namespace is ns and id(p) in pos and pos[id(p)] > pos[id(d)]:
                 fail('linearize_parent_after_child', d.name)
-        la = ns.linearize_aliases()
         if sorted(map(id, la)) != sorted(map(id, ns.aliases)):
             fail('linearize_aliases_not_permutation', ns.name)
         pos = {id(a): i for i, a in enumerate(la)}
